@@ -202,7 +202,9 @@ theorem revokeProg_shape (s : St) (k : Nat) (b : Bool) (o1 o2 : List Nat) :
       · exact ⟨[], by simp, Or.inl rfl⟩
       · simp only
         split
-        · exact ⟨_, hpre, Or.inl rfl⟩
+        · split
+          · exact ⟨_, hpre, Or.inl rfl⟩
+          · exact ⟨_, hpre, Or.inr rfl⟩
         · split
           · exact ⟨_, hpre, Or.inl rfl⟩
           · have hrec : ∀ st ∈ revokePre s k b ++ [Step.putRevoked k (s.stamps + 1)], neutral st = true := by
